@@ -415,6 +415,32 @@ func runC18Ping(c *Ctx) {
 			c.R.Inconcl("registration not seen")
 			return
 		}
+		if idx%10 == 3 {
+			// a PING at the head of a burst of lines that cause no output, and then silence: the PONG is on the wire
+			// without any further stimulus (what the client wrote is not left waiting for a later write)
+			from := mc.NumLines()
+			tok := fmt.Sprintf("quiet%d", idx)
+			b := []byte("PING :" + tok + "\r\n")
+			for k := 0; k < 25; k++ {
+				b = append(b, fmt.Sprintf(":srv NOTICE me :line %d of a burst that needs no answer\r\n", k)...)
+			}
+			s.Conn.HandleFunc("NOTICE", func(_ *client.Conn, _ *client.Line) { time.Sleep(200 * time.Microsecond) })
+			mc.SendBytes(b)
+			if mc.WaitLineFrom(WaitLong, from, func(l string) bool { return l == "PONG :"+tok }) < 0 {
+				if ds := rig.ProveDead(WaitShort); ds.Dead && !mc.Closed() {
+					c.R.Violate(rig.Violation{Sig: "c18|pong-not-on-the-wire", Detail: "a PING followed at once by 25 lines that need no answer was never answered on the wire although the client is idle (" + ds.Signature + ")", Case: Case("ping", idx)})
+					go s.Conn.Close()
+					s.Release()
+					if c.R.NumViolations() > 10 {
+						return
+					}
+					continue
+				}
+				c.R.Inconcl(fmt.Sprintf("%s: PONG after a quiet burst not seen", Case("ping", idx)))
+				return
+			}
+			c.R.Count("pings_at_the_head_of_a_quiet_burst", 1)
+		}
 		n := 20 + r.Intn(100)
 		var want []string
 		var stream []byte
@@ -495,7 +521,7 @@ func runC18Ping(c *Ctx) {
 		}
 		var got []string
 		for _, l := range mc.Lines() {
-			if strings.HasPrefix(l, "PONG ") && !strings.HasPrefix(l, "PONG :sync-") {
+			if strings.HasPrefix(l, "PONG ") && !strings.HasPrefix(l, "PONG :sync-") && !strings.HasPrefix(l, "PONG :quiet") {
 				got = append(got, l)
 			}
 		}
